@@ -30,4 +30,34 @@ def ImagePair.correctedByBlock (p : ImagePair) (model : Model) (kh kw : Nat) (n0
   let bc := p.blockCols sc vc kc
   (p.restrict br.pin bc.pin br.oin bc.oin).corrected model kh kw n0 n1 ups r c
 
+/-! ### source-grid processing: the blocks partition `_src_win`; a block reads the source through its input window `pin` and the
+    reference through the expanded window `oin` on the reference grid -/
+
+def ImagePair.blockRowsSrc (p : ImagePair) (sr vr : Int) (kr : Nat) : Block1 :=
+  block1 p.Sr p.Rr (srcWin p.Sr p.Rr).lo (srcWin p.Sr p.Rr).hi sr vr kr
+def ImagePair.blockColsSrc (p : ImagePair) (sc vc : Int) (kc : Nat) : Block1 :=
+  block1 p.Sc p.Rc (srcWin p.Sc p.Rc).lo (srcWin p.Sc p.Rc).hi sc vc kc
+
+/-- the source-grid pipeline on what a block read: source restricted to `(sinR, sinC)`, reference to `(rinR, rinC)` -/
+def ImagePair.correctedSrcGridOn (p : ImagePair) (model : Model) (kh kw : Nat) (n0 n1 : Rat) (m : Resampling)
+    (sinR sinC rinR rinC : Win1) (r c : Int) : Option Rat :=
+  let q : ImagePair := { p with src := p.src.restrict sinR sinC }
+  if 0 ≤ r ∧ r < p.Sr.n ∧ 0 ≤ c ∧ c < p.Sc.n then
+    let ref' : ImgO := fun i j => resample2 m p.Rr p.Rc p.Sr p.Sc (p.ref.restrict rinR rinC) i j
+    let b : Block :=
+      { h := p.Sr.n.toNat, w := p.Sc.n.toNat
+        src := fun i j => (q.src i j).getD 0, ref := fun i j => (ref' i j).getD 0
+        sm := fun i j => (q.src i j).isSome, rm := fun i j => (ref' i j).isSome }
+    match q.src r c, fitAt b model kh kw false none n0 n1 (fun _ _ => none) r.toNat c.toNat with
+    | some x, some prm => some (prm.gain * x + prm.offset)
+    | _, _ => none
+  else none
+
+/-- corrected value of source pixel `(r, c)` as computed by block `(kr, kc)` of a source-grid run -/
+def ImagePair.correctedSrcGridByBlock (p : ImagePair) (model : Model) (kh kw : Nat) (n0 n1 : Rat) (m : Resampling)
+    (sr sc vr vc : Int) (kr kc : Nat) (r c : Int) : Option Rat :=
+  let br := p.blockRowsSrc sr vr kr
+  let bc := p.blockColsSrc sc vc kc
+  p.correctedSrcGridOn model kh kw n0 n1 m br.pin bc.pin br.oin bc.oin r c
+
 end Homonim
